@@ -59,11 +59,41 @@ func isScalarType(t types.Type) bool {
 	return false
 }
 
-func (i *interpreter) summarizable(fn *ssa.Function) bool {
+func (i *interpreter) summarizable(fn *ssa.Function, env []value) bool {
 	pureMu <- struct{}{}
 	defer func() { <-pureMu }()
-	return staticPure(fn) && isScalarType(fn.Signature.Results())
+	if !staticPure(fn) || !isScalarType(fn.Signature.Results()) {
+		return false
+	}
+	// calls through captured function values: the captured value must itself be
+	// a pure function without environment
+	for _, k := range pureNeeds[fn] {
+		if k >= len(env) {
+			return false
+		}
+		ev := env[k]
+		if cell, ok := ev.(*value); ok && cell != nil {
+			ev = *cell
+		}
+		switch f := ev.(type) {
+		case *ssa.Function:
+			if f == nil || len(pureNeeds[f]) > 0 || !staticPure(f) {
+				return false
+			}
+		case *closure:
+			if f == nil || len(f.Env) > 0 || len(pureNeeds[f.Fn]) > 0 || !staticPure(f.Fn) {
+				return false
+			}
+		default:
+			return false
+		}
+	}
+	return true
 }
+
+// pureNeeds[fn] lists the free variables of fn that fn calls: fn is pure only
+// if the functions bound to them are.
+var pureNeeds = map[*ssa.Function][]int{}
 
 func staticPure(fn *ssa.Function) bool {
 	switch pureCache[fn] {
@@ -87,6 +117,8 @@ func computePure(fn *ssa.Function) bool {
 		return false
 	}
 	n := 0
+	var needs []int
+	defer func() { pureNeeds[fn] = needs }()
 	for _, b := range fn.Blocks {
 		for _, in := range b.Instrs {
 			n++
@@ -115,6 +147,23 @@ func computePure(fn *ssa.Function) bool {
 					continue
 				}
 				callee := x.Call.StaticCallee()
+				cv := x.Call.Value
+				if u, ok := cv.(*ssa.UnOp); ok && u.Op == token.MUL {
+					cv = u.X // a function variable captured by reference
+				}
+				if fv, ok := cv.(*ssa.FreeVar); ok && !x.Call.IsInvoke() {
+					idx := -1
+					for k, f := range fn.FreeVars {
+						if f == fv {
+							idx = k
+						}
+					}
+					if idx < 0 {
+						return false
+					}
+					needs = append(needs, idx)
+					continue
+				}
 				if callee == nil || x.Call.IsInvoke() {
 					return false
 				}
@@ -124,7 +173,7 @@ func computePure(fn *ssa.Function) bool {
 				if len(callee.FreeVars) > 0 {
 					return false
 				}
-				if !staticPure(callee) {
+				if !staticPure(callee) || len(pureNeeds[callee]) > 0 {
 					return false
 				}
 			}
@@ -167,7 +216,7 @@ func (i *interpreter) trySummarize(caller *frame, fn *ssa.Function, args []value
 	if !anySym {
 		return nil, false
 	}
-	if !i.summarizable(fn) {
+	if !i.summarizable(fn, env) {
 		return nil, false
 	}
 	if w.pos < len(w.item.prefix) {
